@@ -205,6 +205,12 @@ func (in *Interp) verifrtConcrete(name string, args []Value) (Value, bool) {
 		return nil, true
 	case "Symbolic":
 		return false, true
+	case "SymbolicSeed":
+		if in.symSeeds == nil {
+			in.symSeeds = map[int64]bool{}
+		}
+		in.symSeeds[args[0].(int64)] = true
+		return nil, true
 	case "Generators":
 		seed := args[0].(int64)
 		k := 0
@@ -216,7 +222,7 @@ func (in *Interp) verifrtConcrete(name string, args []Value) (Value, bool) {
 				}
 				return real.Float64()
 			}
-			if in.drawMode > 0 {
+			if in.drawMode > 0 && !in.symSeeds[seed] {
 				k++
 				return ConcreteDraw(in.drawMode, seed, k-1)
 			}
